@@ -184,7 +184,11 @@ func runC15(c *Ctx) {
 			}
 			q.Target = p.nonErrorReturn()
 			hits := q.From(nil)
-			c.Check("C15-R2", "disconnect-has-remembered-hash-lookup", db.Pos(), len(callsNamed(db, "BlockHash")) > 0, "disconnectBlock never asks the manager for the hash it remembers at the disconnected height (undecided)")
+			nLookups := 0
+			for _, f := range p.regionOf(db) {
+				nLookups += len(callsNamed(f, "BlockHash"))
+			}
+			c.Check("C15-R2", "disconnect-has-remembered-hash-lookup", db.Pos(), nLookups > 0, "disconnectBlock never asks the manager for the hash it remembers at the disconnected height (undecided)")
 			// one obligation per offending exit, named by the test that guards it, so that a recorded finding about one
 			// of them does not hide another
 			seenExit := map[string]bool{}
@@ -212,34 +216,37 @@ func runC15(c *Ctx) {
 					"disconnectBlock can report success at "+p.Pos(h.Ins.Pos())+" (guard: "+guard+") without having looked the disconnected block up among the hashes it remembers: a reorganisation reported while that path is taken (e.g. before the first rescan finished) is dropped, and the transactions of the disconnected block stay confirmed in a block that is no longer on the best chain")
 			}
 		}
-		for _, ci := range callsOf(db) {
-			call, ok := ci.(*ssa.Call)
-			if !ok || !isSet(call) {
-				continue
-			}
-			okEq := !reachableAvoiding(db, nil, call, func(from *ssa.BasicBlock, si int) bool {
-				f := edgeFactOf(from, si)
-				if f == nil || f.Kind != "true" {
-					return false
+		for _, dbf := range p.regionOf(db) {
+			db := dbf
+			for _, ci := range callsOf(db) {
+				call, ok := ci.(*ssa.Call)
+				if !ok || !isSet(call) {
+					continue
 				}
-				eq, ok := f.V.(*ssa.Call)
-				if !ok || calleeShort(&eq.Call) != "Equal" {
-					return false
-				}
-				// one side from Manager.BlockHash, other from the notified block parameter
-				a, b := originKinds(p, eq.Call.Args[0]), originKinds(p, eq.Call.Args[1])
-				return (a["BlockHash"] && b["param"]) || (b["BlockHash"] && a["param"])
-			})
-			c.Check("C15-R2", "disconnect-only-if-stored-hash-matches", call.Pos(), okEq, "disconnectBlock moves the tip although the stored hash at that height was not compared equal to the notified block's hash")
-			// Hash stored into the stamp derives from BlockHash
-			if al, ok := stripConv(call.Call.Args[2]).(*ssa.Alloc); ok {
-				okSrc := false
-				for _, st := range storesToFieldOwner(db, "BlockStamp", "Hash") {
-					if fa := st.Addr.(*ssa.FieldAddr); fa.X == ssa.Value(al) && originKinds(p, st.Val)["BlockHash"] {
-						okSrc = true
+				okEq := !reachableAvoiding(db, nil, call, func(from *ssa.BasicBlock, si int) bool {
+					f := edgeFactOf(from, si)
+					if f == nil || f.Kind != "true" {
+						return false
 					}
+					eq, ok := f.V.(*ssa.Call)
+					if !ok || calleeShort(&eq.Call) != "Equal" {
+						return false
+					}
+					// one side from Manager.BlockHash, other from the notified block parameter
+					a, b := originKinds(p, eq.Call.Args[0]), originKinds(p, eq.Call.Args[1])
+					return (a["BlockHash"] && b["param"]) || (b["BlockHash"] && a["param"])
+				})
+				c.Check("C15-R2", "disconnect-only-if-stored-hash-matches", call.Pos(), okEq, "disconnectBlock moves the tip although the stored hash at that height was not compared equal to the notified block's hash")
+				// Hash stored into the stamp derives from BlockHash
+				if al, ok := stripConv(call.Call.Args[2]).(*ssa.Alloc); ok {
+					okSrc := false
+					for _, st := range storesToFieldOwner(db, "BlockStamp", "Hash") {
+						if fa := st.Addr.(*ssa.FieldAddr); fa.X == ssa.Value(al) && originKinds(p, st.Val)["BlockHash"] {
+							okSrc = true
+						}
+					}
+					c.Check("C15-R2", "parent-hash-from-own-index", call.Pos(), okSrc, "the new tip's hash is not taken from the manager's own recent-hash index (Manager.BlockHash)")
 				}
-				c.Check("C15-R2", "parent-hash-from-own-index", call.Pos(), okSrc, "the new tip's hash is not taken from the manager's own recent-hash index (Manager.BlockHash)")
 			}
 		}
 	}
@@ -835,7 +842,8 @@ func checkCoupledRollback(c *Ctx, rule string) {
 				"after moving the synced-to stamp backwards a success return is reachable without rolling the transaction store back to the same point")
 			// same transaction: both namespace arguments come from ReadWriteBucket calls on the same tx value
 			for _, rb := range rbs {
-				t1, t2 := txOfBucket(s.Call.Args[1]), txOfBucket(rb.Call.Args[1])
+				// (a part that is handed both buckets: what its one caller hands over)
+				t1, t2 := txOfBucket(p.resolveParam(stripConv(s.Call.Args[1]))), txOfBucket(p.resolveParam(stripConv(rb.Call.Args[1])))
 				c.Check(rule, "same-database-transaction:"+name, rb.Pos(), t1 != nil && t1 == t2, "stamp write and store rollback do not use buckets of the same database transaction")
 				// heights: rollback = stamp height + 1
 				stamp := stampArgAlloc(s.Call.Args[2])
